@@ -42,6 +42,17 @@ def _angular(atoms, positions, momenta):
 class C12Common:
     prop = "C12"
 
+    def rebase(self, w, ed):
+        # new baseline: the structure and constraints the user has now put in place
+        sc2 = {"atoms": {"constraints": ed.get("constraints", w.sc["atoms"].get("constraints", []))}}
+        self.rows = _fixed_rows(sc2)
+        self.fixed0 = w.atoms.positions[self.rows].copy() if self.rows else None
+        self.com0 = w.atoms.get_center_of_mass() if len(w.atoms) else np.zeros(3)
+        self.kinds = _kinds(sc2)
+        self.has_com = "FixCom" in self.kinds
+        self.has_rot = "FixRot" in self.kinds and "FixAtoms" not in self.kinds
+        self.nchecks = 0
+
     def setup(self, w):
         self.rows = _fixed_rows(w.sc)
         self.fixed0 = w.atoms.positions[self.rows].copy() if self.rows else None
@@ -81,6 +92,9 @@ class C12Monitor(Monitor, C12Common):
 
     def _ctx(self, w, name):
         return f"driver={w.sc['driver']}|move={w.move_cat(name)}"
+
+    def on_user_edit(self, w, ed):
+        self.rebase(w, ed)
 
     def _applies(self, w, name):
         # "with constraint application enabled (the default)"
@@ -185,6 +199,15 @@ class C12(HistoryCampaign):
         if rnd.random() < 0.3:
             return self.gen_fb(rnd)
         sc = gen_history(rnd, self.flavor)
+        if rnd.random() < 0.3 and "FixRot" not in _kinds(sc):
+            # the user runs, then edits the structure and sets the constraints, then continues the same simulation
+            total = sum(s["n"] for s in sc["steps"])
+            sc["steps"] = [{"n": max(1, total // 2)}, {"n": max(1, total - total // 2)}]
+            cons = sc["atoms"]["constraints"]
+            sc["atoms"]["constraints"] = []
+            n = len(sc["atoms"]["numbers"])
+            sc["edits"] = [{"before_segment": 1, "shift": [gen.rfloat(rnd, -0.8, 0.8, 3) for _ in range(3)],
+                            "rows": sorted(rnd.sample(range(n), rnd.randint(1, n))), "constraints": cons}]
         if "FixRot" in _kinds(sc) and len(sc["atoms"]["numbers"]) < 3:
             sc["atoms"]["constraints"] = [c for c in sc["atoms"]["constraints"] if c["type"] != "FixRot"] or [{"type": "FixCom"}]
         return sc
